@@ -3,6 +3,7 @@ CONSTANTS
  Classes <- AllClasses
  HashedClasses <- AllClasses
  VizHashed = TRUE
+ FlagOverwritesConfig = FALSE
  EventsHashed = TRUE
  NOrders = 1
  KeyDependsOnOrder = FALSE
@@ -16,7 +17,6 @@ CONSTANTS
  MaxEnv = 1
  MaxRuns = 2
  MaxFaults = 0
-VIEW View
 CONSTRAINT ReplayConstraint
 INVARIANT EmitHist
 CHECK_DEADLOCK FALSE
